@@ -7,3 +7,5 @@ import Adsg.Props.C19
 #print axioms Adsg.C19.protocol_traces_accepted
 #print axioms Adsg.C19.automaton_rejects_unsafe
 #print axioms Adsg.C19.may_block
+#print axioms Adsg.C19.accepted_trace_nothing_running
+#print axioms Adsg.C19.accepted_trace_single_return
